@@ -75,6 +75,24 @@ def run(ctx):
                 p["obj"] = rng.choice([0, 1, 3])
                 p["quietx"] = 0
                 ps.append(p)
+        # every coordinate has its own bounds (widths from 1e-2 to 1e2, different offsets) and the unconstrained optimum lies beyond the
+        # box in every coordinate: code that gathers / permutes / rescales coordinates must keep each bound with its coordinate
+        for nm in problems.ALL:
+            if nm == "NLOPT_LN_NEWUOA":
+                continue
+            for rep in range(6 if ctx.thorough else 2):
+                n = rng.choice([3, 4, 5])
+                p = problems.gen_problem(rng, A, alg_name=nm, n=n, box="finite", with_constraints=False, maxeval=(800 if nm in problems.GLOBAL else 300))
+                for k in ("stopval", "maxtime", "clockq", "clock0", "ftol_rel", "xtol_abs", "xtol_rel", "xw", "dx"):
+                    p.pop(k, None)
+                widths = [10.0 ** rng.uniform(-2, 2) for _ in range(n)]
+                lo = [rng.uniform(-3, 3) for _ in range(n)]
+                p["lb"], p["ub"] = lo, [a + w for a, w in zip(lo, widths)]
+                p["x0"] = [a + w * rng.uniform(0.2, 0.8) for a, w in zip(lo, widths)]
+                p["obj"] = 0
+                p["oc"] = [(b + rng.uniform(0.5, 2.0) * w) if rng.random() < 0.7 else (a - rng.uniform(0.5, 2.0) * w) for a, b, w in zip(p["lb"], p["ub"], widths)]
+                p["quietx"] = 0
+                ps.append(p)
         batch = runcheck.run_batch(ctx, bdir, A, ps, [monitors.mon_in_box], "all algorithms")
         glue_correspondence(ctx, batch)
         ctx.sample({"spec": batch[0][1].spec})
